@@ -1479,5 +1479,35 @@ func c14NormRec(cx *c14Ctx, ru *fw.Rule) {
 			}
 		}
 		ru.Check(rec, fmt.Sprintf("NormalizeFn|loop#%d", i+1), p.Rel(l.head.Instrs[0].Pos()), "elements are normalised recursively", "a container loop of gojqx.NormalizeFn does not call NormalizeFn on the element: nested values reach the serialiser / jq un-normalised")
+		// a loop that builds its result with append starts from an empty slice: the result has exactly one
+		// element per input element (make([]any, len(v)) followed by append doubles the length with nulls in front)
+		for b := range l.body {
+			for _, ins := range b.Instrs {
+				c, ok := ins.(*ssa.Call)
+				if !ok || !fw.IsBuiltinCall(c, "append") || len(c.Call.Args) == 0 {
+					continue
+				}
+				ph, ok := c.Call.Args[0].(*ssa.Phi)
+				if !ok {
+					continue
+				}
+				empty := true
+				for ei, e := range ph.Edges {
+					if l.body[ph.Block().Preds[ei]] {
+						continue // the back edge
+					}
+					switch x := e.(type) {
+					case *ssa.Const:
+						empty = empty && x.IsNil()
+					case *ssa.MakeSlice:
+						ln, isC := x.Len.(*ssa.Const)
+						empty = empty && isC && ln.Value != nil && ln.Int64() == 0
+					default:
+						empty = false
+					}
+				}
+				ru.Check(empty, fmt.Sprintf("NormalizeFn|loop#%d:append-from-empty", i+1), p.Rel(c.Pos()), "the appended-to result starts empty", "a container loop of gojqx.NormalizeFn appends the normalised elements to a slice that does not start empty (make([]any, len(v)) then append): the result has leading nulls and twice the length, e.g. for toml arrays of tables")
+			}
+		}
 	}
 }
